@@ -11,6 +11,7 @@
 Everything that is not exactly of the expected shape raises TranslateError."""
 import ast
 import hashlib
+import json
 import re
 from pathlib import Path
 
@@ -262,35 +263,348 @@ def make_positive(fn):
     return True
 
 
-def translate(repo):
+# ------------------------------------------------------------------ memo slots
+def _int_const(n):
+    if isinstance(n, ast.Constant) and isinstance(n.value, int) and not isinstance(n.value, bool):
+        return n.value
+    if isinstance(n, ast.UnaryOp) and isinstance(n.op, ast.USub):
+        v = _int_const(n.operand)
+        return None if v is None else -v
+    return None
+
+
+class _Unknown(Exception):
+    pass
+
+
+class SlotExpr:
+    """the decision of _slot_answers as (a) its value when `stored is None`, by partial
+    evaluation with Python's short-circuit order, and (b) a Gallina boolean over
+    `stored options : list oval` for an entry that has options"""
+    TUPLES = ('stored', 'options')
+
+    def tup(self, n):
+        if isinstance(n, ast.Name) and n.id in self.TUPLES:
+            return n.id
+        if isinstance(n, ast.Subscript) and isinstance(n.slice, ast.Slice) and n.slice.step is None:
+            base = self.tup(n.value)
+            lo, hi = n.slice.lower, n.slice.upper
+            if lo is None and hi is not None:
+                k = _int_const(hi)
+                if k is not None and k < 0:
+                    return f'(py_until_neg {-k} {base})'
+                if k is not None:
+                    return f'(py_until {k} {base})'
+            if hi is None and lo is not None:
+                k = _int_const(lo)
+                if k is not None and k < 0:
+                    return f'(py_from_neg {-k} {base})'
+                if k is not None:
+                    return f'(py_from {k} {base})'
+            raise TranslateError(f'_slot_answers: slice {ast.unparse(n)!r}')
+        if isinstance(n, ast.Tuple):
+            return '[' + '; '.join(self.elt(e) for e in n.elts) + ']'
+        raise TranslateError(f'_slot_answers: not an options tuple: {ast.unparse(n)!r}')
+
+    def is_tup(self, n):
+        try:
+            self.tup(n)
+            return True
+        except TranslateError:
+            return False
+
+    def elt(self, n):
+        if isinstance(n, ast.Constant) and isinstance(n.value, bool):
+            return f'(OB {"true" if n.value else "false"})'
+        if isinstance(n, ast.Constant) and isinstance(n.value, str) and '"' not in n.value:
+            return f'(OS "{n.value}")'
+        if isinstance(n, ast.Subscript) and not isinstance(n.slice, ast.Slice):
+            k = _int_const(n.slice)
+            base = self.tup(n.value)
+            # only indices that exist in every options tuple (length >= 2)
+            if k is not None and -2 <= k < 0 and base in self.TUPLES:
+                return f'(py_neg_index {-k} {base})'
+            if k is not None and 0 <= k <= 1 and base in self.TUPLES:
+                return f'(py_index {k} {base})'
+        raise TranslateError(f'_slot_answers: not an options entry: {ast.unparse(n)!r}')
+
+    def boolean(self, n):
+        if isinstance(n, ast.Constant) and isinstance(n.value, bool):
+            return 'true' if n.value else 'false'
+        if isinstance(n, ast.BoolOp):
+            op = ' && ' if isinstance(n.op, ast.And) else ' || '
+            return '(' + op.join(self.boolean(v) for v in n.values) + ')'
+        if isinstance(n, ast.UnaryOp) and isinstance(n.op, ast.Not):
+            return f'(negb {self.boolean(n.operand)})'
+        if isinstance(n, ast.Compare) and len(n.ops) == 1:
+            l, r, op = n.left, n.comparators[0], n.ops[0]
+            if isinstance(op, (ast.Is, ast.IsNot)) and isinstance(l, ast.Name) and l.id == 'stored' \
+                    and isinstance(r, ast.Constant) and r.value is None:
+                return 'false' if isinstance(op, ast.Is) else 'true'
+            if isinstance(op, (ast.Eq, ast.NotEq)):
+                if self.is_tup(l) and self.is_tup(r):
+                    e = f'(opts_eqb {self.tup(l)} {self.tup(r)})'
+                else:
+                    e = f'(oval_eqb {self.elt(l)} {self.elt(r)})'
+                return e if isinstance(op, ast.Eq) else f'(negb {e})'
+            raise TranslateError(f'_slot_answers: comparison {ast.unparse(n)!r}')
+        return f'(truthy {self.elt(n)})'
+
+    def when_none(self, n):
+        """value with stored = None; _Unknown if it depends on `options`; TranslateError if
+        Python would raise (None[...])"""
+        if isinstance(n, ast.Constant) and isinstance(n.value, bool):
+            return n.value
+        if isinstance(n, ast.BoolOp):
+            is_and = isinstance(n.op, ast.And)
+            for v in n.values:
+                x = self.when_none(v)
+                if x is (not is_and):
+                    return x
+            return is_and
+        if isinstance(n, ast.UnaryOp) and isinstance(n.op, ast.Not):
+            return not self.when_none(n.operand)
+        if isinstance(n, ast.Compare) and len(n.ops) == 1:
+            l, r, op = n.left, n.comparators[0], n.ops[0]
+            if isinstance(op, (ast.Is, ast.IsNot)) and isinstance(l, ast.Name) and l.id == 'stored' \
+                    and isinstance(r, ast.Constant) and r.value is None:
+                return isinstance(op, ast.Is)
+            names = {x.id for x in ast.walk(n) if isinstance(x, ast.Name)}
+            subs = [x for x in ast.walk(n) if isinstance(x, ast.Subscript)
+                    and isinstance(x.value, ast.Name) and x.value.id == 'stored']
+            if subs:
+                raise TranslateError('_slot_answers: subscripts `stored` while it may be None')
+            if 'stored' in names and isinstance(op, (ast.Eq, ast.NotEq)) and \
+                    ((isinstance(l, ast.Name) and l.id == 'stored' and self.is_tup(r)) or
+                     (isinstance(r, ast.Name) and r.id == 'stored' and self.is_tup(l))):
+                return isinstance(op, ast.NotEq)        # None == <tuple> is False
+        if any(isinstance(x, ast.Name) and x.id == 'stored' for x in ast.walk(n)):
+            raise TranslateError(f'_slot_answers: uses `stored` while it may be None: {ast.unparse(n)!r}')
+        raise _Unknown(ast.unparse(n))
+
+
+def slot_answers(fn):
+    params = [a.arg for a in fn.args.args]
+    if params != ['self', 'key', 'options']:
+        raise TranslateError(f'_slot_answers: parameters {params}')
+    body = [s for s in fn.body if not (isinstance(s, ast.Expr) and isinstance(s.value, ast.Constant))]
+    if not body or ast.unparse(body[0]) != "stored = getattr(self.elemental_data[key], 'options', None)":
+        raise TranslateError('_slot_answers: first statement')
+    sx = SlotExpr()
+
+    def chain(stmts):
+        if not stmts:
+            raise TranslateError('_slot_answers: falls off the end (returns None)')
+        s = stmts[0]
+        if isinstance(s, ast.Return) and s.value is not None:
+            return ('ret', s.value)
+        if isinstance(s, ast.If):
+            rest = list(s.orelse) + list(stmts[1:]) if not _always_returns(s.orelse) else list(s.orelse)
+            return ('ite', s.test, chain(list(s.body) + list(stmts[1:])), chain(rest))
+        raise TranslateError(f'_slot_answers: statement {ast.unparse(s)!r}')
+
+    def _always_returns(stmts):
+        return bool(stmts) and isinstance(stmts[-1], ast.Return)
+
+    tree = chain(body[1:])
+
+    def gallina(t):
+        if t[0] == 'ret':
+            return sx.boolean(t[1])
+        return f'(if {sx.boolean(t[1])} then {gallina(t[2])} else {gallina(t[3])})'
+
+    def none_value(t):
+        if t[0] == 'ret':
+            return sx.when_none(t[1])
+        return none_value(t[2]) if sx.when_none(t[1]) else none_value(t[3])
+    try:
+        unowned = none_value(tree)
+    except _Unknown as e:
+        raise TranslateError(f'_slot_answers: answer for entries without options depends on {e}')
+    return {'unowned': bool(unowned), 'expr': gallina(tree)}
+
+
+def _kwdefaults(fn):
+    return {a.arg: d for a, d in zip(fn.args.kwonlyargs, fn.args.kw_defaults) if d is not None}
+
+
+def slot_user(fn, key, names):
+    """calculate_element_metrics / _volumes: the options tuple given to _slot_answers and
+    to _store_slot (same tuple, made of the function's own option parameters), and the
+    shape of the early answer from the stored entry"""
+    tuples = []
+    for n in ast.walk(fn):
+        if isinstance(n, ast.Call) and isinstance(n.func, ast.Attribute) and \
+                isinstance(n.func.value, ast.Name) and n.func.value.id == 'self':
+            if n.func.attr == '_slot_answers' and len(n.args) == 2 and \
+                    isinstance(n.args[0], ast.Constant) and n.args[0].value == key:
+                tuples.append(('answers', n.args[1]))
+            if n.func.attr == '_store_slot' and len(n.args) == 4 and \
+                    isinstance(n.args[1], ast.Constant) and n.args[1].value == key:
+                tuples.append(('store', n.args[3]))
+    if sorted(k for k, _ in tuples) != ['answers', 'store']:
+        raise TranslateError(f'{fn.name}: expected one _slot_answers and one _store_slot for {key!r}')
+    orders = []
+    for _, t in tuples:
+        if not (isinstance(t, ast.Tuple) and all(isinstance(e, ast.Name) for e in t.elts)):
+            raise TranslateError(f'{fn.name}: options tuple {ast.unparse(t)!r}')
+        orders.append([e.id for e in t.elts])
+    if orders[0] != orders[1] or sorted(orders[0]) != sorted(names):
+        raise TranslateError(f'{fn.name}: options tuples {orders}')
+    rz, ab = [x for x in names if x.startswith('raise_')][0], [x for x in names if x.startswith('return_')][0]
+    want = (f"if {key!r} in self.elemental_data and self._slot_answers({key!r}, ({', '.join(orders[0])})):\n"
+            f"    return self._validate_metric(self.elemental_data.get_attribute_data({key!r}), "
+            f"raise_negative_metric={rz}, return_abs_metric={ab})")
+    hits = [n for n in ast.walk(fn) if isinstance(n, ast.If) and ast.unparse(n.test).startswith(f'{key!r} in self.elemental_data')]
+    if len(hits) != 1 or ast.unparse(ast.If(test=hits[0].test, body=hits[0].body, orelse=[])) != want \
+            or hits[0].orelse:
+        raise TranslateError(f'{fn.name}: early answer from the stored {key!r} entry is not the modelled one')
+    # the store: validated values, only for the object's own element table
+    src = ast.unparse(fn)
+    val = {'metric': 'metrics', 'volume': 'volumes'}[key]
+    for need in (f'{val} = self._validate_metric({val}, raise_negative_metric={rz}, return_abs_metric={ab})',
+                 'if update and elements is self.elements:'):
+        if src.count(need) != 1:
+            raise TranslateError(f'{fn.name}: expected {need!r}')
+    return orders[0]
+
+
+VALIDATE_BODY = ['if raise_negative_metric and np.any(metric < 0.0):\n'
+                 "    raise ValueError(f'Negative metric found: {metric[metric < 0]}')",
+                 'if return_abs_metric:\n    metric = np.abs(metric)',
+                 'return metric']
+
+
+def slots(gcls, mp_fn):
+    sa = slot_answers(_method(gcls, '_slot_answers'))
+    vm = _method(gcls, '_validate_metric')
+    if [ast.unparse(s) for s in vm.body] != VALIDATE_BODY:
+        raise TranslateError('_validate_metric: body differs from the modelled one')
+    st = _method(gcls, '_store_slot')
+    need = ['self.elemental_data.update_data(ids, {key: values}, **kwargs)',
+            'self.elemental_data[key].options = options']
+    if [ast.unparse(s) for s in st.body[-3:-1]] != need:
+        raise TranslateError('_store_slot: body differs from the modelled one')
+    cm, cv = _method(gcls, 'calculate_element_metrics'), _method(gcls, 'calculate_element_volumes')
+    mo = slot_user(cm, 'metric', ['raise_negative_metric', 'return_abs_metric'])
+    vo = slot_user(cv, 'volume', ['mode', 'raise_negative_volume', 'return_abs_volume'])
+    dm, dv = _kwdefaults(cm), _kwdefaults(cv)
+    mode = dv.get('mode')
+    if not (isinstance(mode, ast.Constant) and isinstance(mode.value, str)):
+        raise TranslateError('calculate_element_volumes: default mode')
+    deleg = ('self.calculate_element_volumes(raise_negative_volume=raise_negative_metric, '
+             'return_abs_volume=return_abs_metric, elements=elements, update=update)')
+    if ast.unparse(cm).count(deleg) != 1:
+        raise TranslateError('calculate_element_metrics: delegation to calculate_element_volumes')
+    # make_elements_positive: the query it makes
+    stmts = [s for s in mp_fn.body if not (isinstance(s, ast.Expr) and isinstance(s.value, ast.Constant))]
+    call = None
+    s0 = stmts[0]
+    if isinstance(s0, ast.Assign) and isinstance(s0.value, ast.Subscript) and \
+            isinstance(s0.value.value, ast.Call) and \
+            ast.unparse(s0.value.value.func) == 'self.calculate_element_metrics' and \
+            ast.unparse(s0.value.slice) == '(:, 0)':
+        call = s0.value.value
+    if call is None or call.args:
+        raise TranslateError('make_elements_positive: metric query')
+    q = {}
+    for nm in ('raise_negative_metric', 'return_abs_metric'):
+        d = dm.get(nm)
+        for kw in call.keywords:
+            if kw.arg == nm:
+                d = kw.value
+        if not (isinstance(d, ast.Constant) and isinstance(d.value, bool)):
+            raise TranslateError(f'make_elements_positive: value of {nm}')
+        q[nm] = d.value
+    if {kw.arg for kw in call.keywords} - set(q):
+        raise TranslateError('make_elements_positive: other arguments in the metric query')
+    # what it removes after the write-back
+    clears = None
+    for s in stmts[6:]:
+        if isinstance(s, ast.For) and isinstance(s.iter, (ast.Tuple, ast.List)) and \
+                all(isinstance(e, ast.Constant) and isinstance(e.value, str) for e in s.iter.elts) and \
+                isinstance(s.target, ast.Name) and \
+                ast.unparse(s.body) == (f'if {s.target.id} in self.elemental_data:\n'
+                                        f'    self.elemental_data.pop({s.target.id})'):
+            clears = (clears or []) + [e.value for e in s.iter.elts]
+        elif isinstance(s, ast.If) and not s.orelse and len(s.body) == 1:
+            m = re.fullmatch(r"'(\w+)' in self\.elemental_data", ast.unparse(s.test))
+            if m and ast.unparse(s.body[0]) == f"self.elemental_data.pop('{m.group(1)}')":
+                clears = (clears or []) + [m.group(1)]
+    if clears is None:
+        raise TranslateError('make_elements_positive: removal of the stored entries not recognised')
+    return {'answers': sa, 'metric_order': mo, 'volume_order': vo, 'default_mode': mode.value,
+            'positive_query': [q['raise_negative_metric'], q['return_abs_metric']], 'clears': clears}
+
+
+BASELINE = Path(__file__).resolve().parent / 'c18_baseline.json'
+KERNEL_TYPES = ['tet', 'hex', 'prism', 'pyr']
+
+
+def translate(repo, degrade=True):
+    """Region by region.  A region the grammar cannot read does not stop the run
+    (degrade=True): its part of the model is taken from the committed baseline
+    (the translation of the registered tree, translate/c18_baseline.json) and the
+    region is listed in model['degraded'] with the reason; the harness then ties
+    that region by a widened correspondence instead (tie H instead of T)."""
     repo = Path(repo)
     fsrc = (repo / 'femio' / 'fem_data.py').read_text()
-    ftree = ast.parse(fsrc)
-    cls = [n for n in ftree.body if isinstance(n, ast.ClassDef) and n.name == 'FEMData']
-    if len(cls) != 1:
-        raise TranslateError('class FEMData not found')
-    cls = cls[0]
-    consumed = {}
-    disp = to_polyhedron(_method(cls, 'to_polyhedron'))
-    consumed['fem_data.py:to_polyhedron'] = sha(ast.get_source_segment(fsrc, _method(cls, 'to_polyhedron')))
-    kernels = {}
-    for ty, (kname, wrap32) in disp.items():
-        fn = _method(cls, kname)
-        kernels[ty] = poly_kernel(fn)
-        kernels[ty]['int32'] = wrap32
-        consumed['fem_data.py:' + kname] = sha(ast.get_source_segment(fsrc, fn))
-    rd = _method(cls, 'resolve_degeneracy')
-    patterns = resolve_degeneracy(rd)
-    consumed['fem_data.py:resolve_degeneracy'] = sha(ast.get_source_segment(fsrc, rd))
     gsrc = (repo / 'femio' / 'geometry_processor.py').read_text()
-    gtree = ast.parse(gsrc)
-    gcls = [n for n in gtree.body if isinstance(n, ast.ClassDef) and n.name == 'GeometryProcessorMixin'][0]
-    pm = permute(_method(gcls, '_permute'))
-    make_positive(_method(gcls, 'make_elements_positive'))
-    consumed['geometry_processor.py:_permute'] = sha(ast.get_source_segment(gsrc, _method(gcls, '_permute')))
-    consumed['geometry_processor.py:make_elements_positive'] = \
-        sha(ast.get_source_segment(gsrc, _method(gcls, 'make_elements_positive')))
-    return {'kernels': kernels, 'patterns': patterns, 'permute_tet': pm}, consumed
+    ftree, gtree = ast.parse(fsrc), ast.parse(gsrc)
+    cls = [n for n in ftree.body if isinstance(n, ast.ClassDef) and n.name == 'FEMData']
+    gcls = [n for n in gtree.body if isinstance(n, ast.ClassDef) and n.name == 'GeometryProcessorMixin']
+    if len(cls) != 1 or len(gcls) != 1:
+        raise TranslateError('class FEMData / GeometryProcessorMixin not found')
+    cls, gcls = cls[0], gcls[0]
+    base = json.loads(BASELINE.read_text()) if BASELINE.exists() else None
+    consumed, degraded = {}, {}
+    model = {'kernels': {}}
+
+    def region(name, fn, sources):
+        """sources: [(label, src, node getter)]"""
+        try:
+            val = fn()
+        except (TranslateError, SyntaxError, IndexError, KeyError, AttributeError) as e:
+            if not degrade or base is None:
+                raise TranslateError(f'{name}: {e}')
+            degraded[name] = str(e)[:300]
+            val = None
+        for label, src, get in sources:
+            try:
+                consumed[label] = sha(ast.get_source_segment(src, get()))
+            except TranslateError:
+                consumed[label] = 'missing'
+        return val
+
+    disp = region('to_polyhedron', lambda: to_polyhedron(_method(cls, 'to_polyhedron')),
+                  [('fem_data.py:to_polyhedron', fsrc, lambda: _method(cls, 'to_polyhedron'))])
+    if disp is None:
+        disp = {ty: (k['kernel'], k['int32']) for ty, k in base['kernels'].items()}
+    for ty, (kname, wrap32) in disp.items():
+        k = region(kname, lambda: poly_kernel(_method(cls, kname)),
+                   [('fem_data.py:' + kname, fsrc, lambda: _method(cls, kname))])
+        if k is None:
+            if ty not in base['kernels']:
+                raise TranslateError(f'{kname}: no baseline for type {ty}')
+            k = {x: base['kernels'][ty][x] for x in ('arity', 'uses_argsort', 'faces')}
+        k['int32'] = wrap32
+        k['kernel'] = kname
+        model['kernels'][ty] = k
+    pats = region('resolve_degeneracy', lambda: resolve_degeneracy(_method(cls, 'resolve_degeneracy')),
+                  [('fem_data.py:resolve_degeneracy', fsrc, lambda: _method(cls, 'resolve_degeneracy'))])
+    model['patterns'] = pats if pats is not None else base['patterns']
+    pm = region('_permute', lambda: permute(_method(gcls, '_permute')),
+                [('geometry_processor.py:_permute', gsrc, lambda: _method(gcls, '_permute'))])
+    model['permute_tet'] = pm if pm is not None else base['permute_tet']
+    region('make_elements_positive', lambda: make_positive(_method(gcls, 'make_elements_positive')),
+           [('geometry_processor.py:make_elements_positive', gsrc,
+             lambda: _method(gcls, 'make_elements_positive'))])
+    sl = region('slots', lambda: slots(gcls, _method(gcls, 'make_elements_positive')),
+                [('geometry_processor.py:' + n, gsrc, (lambda n=n: _method(gcls, n)))
+                 for n in ('_slot_answers', '_validate_metric', '_store_slot')])
+    model['slots'] = sl if sl is not None else base['slots']
+    model['degraded'] = degraded
+    return model, consumed
 
 
 def nl(xs):
@@ -328,7 +642,42 @@ def emit(model):
     return '\n'.join(out) + '\n'
 
 
+def emit_slots(model):
+    sl = model['slots']
+    b = lambda x: 'true' if x else 'false'   # noqa
+    ty = {'mode': 'OS mode'}
+    mo = '; '.join(ty.get(n, f'OB {n}') for n in sl['metric_order'])
+    vo = '; '.join(ty.get(n, f'OB {n}') for n in sl['volume_order'])
+    return '\n'.join([
+        '(* GENERATED by translate/c18_tables.py from femio/geometry_processor.py.',
+        '   Do not edit: regenerated on every run of ./check C18. *)',
+        'From Coq Require Import List String Bool.', 'Import ListNotations.',
+        'From FV.C18 Require Import SlotBase.', 'Open Scope string_scope.', '',
+        '(* _slot_answers: entry without options, i.e. not stored by the calculate_element methods *)',
+        f"Definition slot_answers_unowned : bool := {b(sl['answers']['unowned'])}.",
+        '(* _slot_answers: entry stored with the options tuple `stored` *)',
+        'Definition slot_answers (stored options : list oval) : bool :=',
+        f"  {sl['answers']['expr']}.",
+        '(* the options tuples of calculate_element_metrics / calculate_element_volumes *)',
+        'Definition metric_opts (raise_negative_metric return_abs_metric : bool) : list oval :=',
+        f'  [{mo}].',
+        'Definition volume_opts (mode : string) (raise_negative_volume return_abs_volume : bool) : list oval :=',
+        f'  [{vo}].',
+        f'Definition volume_default_mode : string := "{sl["default_mode"]}".',
+        '(* make_elements_positive: calculate_element_metrics(raise_negative_metric, return_abs_metric) *)',
+        f"Definition positive_query : bool * bool := ({b(sl['positive_query'][0])}, {b(sl['positive_query'][1])}).",
+        '(* entries removed from elemental_data after the write-back *)',
+        'Definition positive_clears : list string := [' + '; '.join(f'"{c}"' for c in sl['clears']) + '].',
+    ]) + '\n'
+
+
 if __name__ == '__main__':
     import sys
+    if len(sys.argv) > 2 and sys.argv[2] == '--write-baseline':
+        m, c = translate(sys.argv[1], degrade=False)
+        BASELINE.write_text(json.dumps(m, indent=1, sort_keys=True) + '\n')
+        sys.exit(0)
     m, c = translate(sys.argv[1] if len(sys.argv) > 1 else '/repo')
     sys.stdout.write(emit(m))
+    sys.stdout.write(emit_slots(m))
+    sys.stderr.write(json.dumps(m['degraded'], indent=1) + '\n')
